@@ -1348,7 +1348,59 @@ def string_arbitrary_exploration(out, tier):
     out.bounded.append('String Arbitrary: BOUNDED concrete exploration only (%d declarations, %d generator runs over enumerated byte inputs: selector byte + up to 4 special chars, all-0x00/0xFF up to 64 bytes); not a proof, not counted as obligations' % (nd, explored))
 
 
+def modular_part(out, prop, tier):
+    """Kani modular mode (function contracts on the dumped text, stub_verified callers), floats."""
+    from . import kani_modular
+    allf = [d for d in float_decls(tier) if d.custom_validation is None]
+    if tier == 'quick':
+        pick = ('flt_f64_fin_greater_or_equal_less_sym', 'flt_f32_le_ge_fin_sym', 'flt_f64_san_fin_le', 'flt_f32_san_nov', 'flt_f64_greater_sym', 'flt_f32_pred_lt_fin')
+        allf = [d for d in allf if d.id in pick]
+    dr = pipeline.build_dumps(allf, prop + 'm')
+    decls = [d for d in allf if 'mod __nutype_' in dr.dumps.get(d.id, '') and d.id not in dr.rustc_rejected]
+    try:
+        text, hs = kani_modular.crate_text(decls, dr.dumps)
+    except Undecided as e:
+        out.undecided.append(str(e))
+        return
+    crate = write_crate(prop + 'm', text, features=(), deps=())
+    t0 = time.time()
+    rc, output, wall, cmd = run_kani(crate, jobs=14)
+    res = parse_kani(output)
+    out.checker_cmds.append('cargo kani -Z function-contracts -Z stubbing (modular mode: proof_for_contract + stub_verified on the dumped expansions, crate work/kani_%sm, %d contract proofs)' % (prop, len(hs)))
+    if not res:
+        out.undecided.append('kani modular crate did not build/run: ' + output[-1200:])
+        return
+    solver = 0.0
+    for name, d, fn in hs:
+        r = res.get(name)
+        key = '%s::%s (Kani function contract, modular)' % (d.id, fn)
+        if r is None or r['status'] == 'UNKNOWN':
+            out.undecided.append('kani modular harness %s produced no verdict' % name)
+            continue
+        solver += r['time']
+        out.obligations += 1
+        if r['status'] == 'SUCCESS':
+            out.discharged += 1
+        elif 'CBMC timed out' in r['text'] or 'CBMC failed' in '; '.join(r['failed']):
+            out.obligations -= 1
+            out.undecided.append('kani modular harness %s: solver timeout' % name)
+        else:
+            out.failed.append({'key': key, 'backend': 'kani (function contract)', 'message': '; '.join(r['failed'])[:400], 'detail': r['text'][-3000:],
+                               'decl': d.id, 'decl_obj': d})
+    out.extra['kani_modular'] = {'declarations': len(decls), 'contract_proofs': len(hs), 'solver_time_s': round(solver, 1), 'wall_s': round(time.time() - t0, 1),
+                                 'note': 'try_new/new are proved against the CONTRACTS of __sanitize__/__validate__ (stub_verified), not their bodies'}
+    if len(out.samples) < 12 and hs:
+        out.samples.append({'obligation': '%s::try_new (Kani function contract, modular)' % decls[0].id,
+                            'clause': '#[kani::ensures(|r| r == ref::try_new(raw) bit-exact)] proved with stub_verified(__sanitize__), stub_verified(__validate__)',
+                            'declaration': decls[0].source().strip(), 'backend': 'kani'})
+
+
 def kani_part(out, prop, tier, seed):
+    if prop == 'C01':
+        try:
+            modular_part(out, prop, tier)
+        except Undecided as e:
+            out.undecided.append(str(e)[:500])
     decls, hs, extra = harnesses_for(prop, tier, seed)
     if hs:
         decls, hs = prefilter(out, prop, decls, hs)
